@@ -80,6 +80,9 @@ def tasks(tier, seed):
     for Ms, qd, ns in ([((3, 2, 2), 'LU', (1, 2, 1)), ((3, 2, 2), 'IE', (2, 1, 1)), ((3, 2, 2), 'LU', (1, 1, 1)), ((2, 2, 1), 'LU', (1, 1, 1)), ((3, 2), 'IE', (2, 1))] if quick else
                        [(Ms_, qd_, (a, b, 1)) for Ms_ in ((3, 2, 2), (3, 2, 1), (4, 3, 2), (2, 2, 2), (3, 3, 2)) for qd_ in ('LU', 'IE', 'MIN-SR-S') for a in (1, 2) for b in (1, 2, 3)]):
         T.append(('multigrid', Ms, qd, ns))
+    # four levels (two intermediate levels: each one is swept on the way down and on the way up)
+    for Ms, qd, ns in ([((3, 2, 2, 1), 'LU', (1, 1, 1, 1)), ((2, 2, 2, 2), 'IE', (1, 2, 1, 1))] if quick else [((3, 2, 2, 1), 'LU', (1, 1, 1, 1)), ((2, 2, 2, 2), 'IE', (1, 2, 1, 1)), ((3, 3, 2, 2), 'LU', (1, 1, 2, 1)), ((3, 2, 2, 2, 1), 'IE', (1, 1, 1, 1, 1))]):
+        T.append(('multigrid', Ms, qd, ns))
     for Ms, qd, ns in ([((3, 2), 'LU', (1, 1)), ((3, 2, 2), 'IE', (1, 1, 1))] if quick else [((3, 2), 'LU', (1, 1)), ((3, 2, 2), 'IE', (1, 1, 1)), ((4, 2), 'IE', (2, 1)), ((3, 2, 1), 'LU', (1, 2, 1)), ((5, 3), 'LU', (1, 1))]):
         T.append(('multigrid', Ms, qd, ns, True))  # prolongation of values and right-hand sides
     for Ms, qd, ns in ([((3, 2, 2), 'LU', (1, 1, 1)), ((3, 2), 'IE', (1, 1))] if quick else [((3, 2, 2), 'LU', (1, 1, 1)), ((3, 2), 'IE', (1, 1)), ((3, 2, 1), 'IE', (1, 2, 1)), ((4, 3, 2), 'LU', (1, 1, 1))]):
